@@ -376,6 +376,18 @@ Section Spec.
   Definition env_ok : bool := forallb (fun p => tdef_ok (snd p)) E.
 End Spec.
 
+(** every named type a type expression / the environment mentions is defined (true of any schema
+    the library builds: types are Go pointers) *)
+Fixpoint sty_closed (E : env) (t : sty) : bool :=
+  match t with StNamed n => ahas n E | StList t' => sty_closed E t' | StNonNull t' => sty_closed E t' end.
+
+Definition env_closed (E : env) : bool :=
+  forallb (fun p => match snd p with
+                    | TInput fields _ => forallb (fun f => sty_closed E (in_type (snd f))) fields
+                    | _ => true
+                    end) E.
+
+
 (** 5.6.3 Input Object Field Uniqueness, for every object inside a literal *)
 Fixpoint lit_nodup (l : lit) : bool :=
   match l with
